@@ -34,7 +34,7 @@ ASSUMPTIONS = ['EpsAlg is compared with the exact table only while the exact tab
 C_EPS = 64.0
 MAX_EXACT_TERMS = 13
 UNRESOLVED = 1e-3   # a table difference that +-1 ulp perturbations move by more than this fraction 'vanishes' in binary64
-FAMILIES = ['transients', 'random', 'alternating', 'rounded', 'extreme']
+FAMILIES = ['transients', 'random', 'alternating', 'rounded', 'extreme', 'integers']
 
 
 def _dea_return(ctx):
@@ -105,6 +105,19 @@ def make_sequence(case):
         seq = [float(v) for v in rng.normal(size=N) * scale]
         if rng.random() < 0.3:
             seq = [float(v) for v in np.cumsum(seq) / (1 + np.arange(N))]
+    elif fam == 'integers':
+        # integer-valued terms handed over as Python ints (or numpy integers): L + m q^n with small integers, or a
+        # random walk of integers
+        if rng.random() < 0.6:
+            q = int(rng.choice([-3, -2, 2, 3]))
+            L, m = int(rng.integers(-20, 21)), int(rng.integers(1, 6)) * int(rng.choice([-1, 1]))
+            raw = [L + m * q ** n for n in range(min(N, 30))]
+        else:
+            raw = [int(v) for v in np.cumsum(rng.integers(-9, 10, size=N))]
+        if rng.random() < 0.5:
+            raw = [np.int64(v) for v in raw]
+        seq = [float(v) for v in raw]
+        meta = dict(raw=raw)
     elif fam == 'extreme':
         # the ends of the binary64 range: finite input all the same
         mode = int(rng.integers(0, 4))
@@ -236,6 +249,7 @@ def run_case(case, ctx):
     from numdifftools.extrapolation import EpsAlg, Dea, dea3
     seq, meta = make_sequence(case)
     N, limexp = len(seq), case['limexp']
+    given = meta.get('raw') or seq          # the terms in the type they are handed over in
     prng = np.random.default_rng(case['seed'] + 7)
     _hist['branches'] = set()
     # ------------------------------------------------------------------ EpsAlg
@@ -243,7 +257,7 @@ def run_case(case, ctx):
     ea_out = []
     ea_guard = []   # did the library's own vanishing-difference substitution (1e60) appear in its table so far
     try:
-        for s in seq[:MAX_EXACT_TERMS]:
+        for s in given[:MAX_EXACT_TERMS]:
             ea_out.append(ea(s))
             d_ = len(ea.epstab) - 1
             ea_guard.append({d_ - j for j, v in enumerate(ea.epstab) if v == 1.0e+60})   # the substitute itself (values that size occur in the 'extreme' family)
@@ -310,7 +324,7 @@ def run_case(case, ctx):
         ctx.reject('dea_constructor_raised', observed=repr(exc), detail=dict(limexp=limexp))
         return
     outs = []
-    for i, s in enumerate(seq):
+    for i, s in enumerate(given):
         _hist['dea_called'] = False
         try:
             r, e = dea(s)
@@ -365,7 +379,8 @@ def run_case(case, ctx):
     if N >= 3 and finite_in and not normal3:
         ctx.count('dea_first_three_outside_normal_range(not compared)')
     if N >= 3 and finite_in and normal3:
-        r3, e3 = dea3(np.float64(seq[0]), np.float64(seq[1]), np.float64(seq[2]))
+        r3, e3 = (dea3(given[0], given[1], given[2]) if meta.get('raw') else
+                  dea3(np.float64(seq[0]), np.float64(seq[1]), np.float64(seq[2])))
         r3, e3 = float(r3[0]), float(e3[0])
         ctx.count('dea_first_three_asserted')
         tol = 4 * max(math.ulp(r3), math.ulp(seq[1]))
